@@ -529,4 +529,13 @@ Section Tie.
       call_order model_ret true = OReturned /\
       stmt_uses ["model_pz()"] model_head = true /\ stmt_uses ["model_sit()"] model_head = true.
   Proof. vm_compute. repeat split; reflexivity. Qed.
+  (* ---------------------------------------------------------------- reactions(): every reaction step *)
+
+  (* in EVERY pass through the loop over reaction steps (whatever reaction_step and incremental_reactions are)
+     set_initial_moles - which makes the amounts at the start of THIS step the reference of dissolve_only /
+     precipitate_only - is called before the step is solved (run_reactions); the body does solve a step *)
+  Lemma every_step_resets_reference_amounts :
+      call_before "set_initial_moles" "run_reactions" reaction_step_body false = Some true /\
+      calls "run_reactions" reaction_step_body = true.
+  Proof. vm_compute. split; reflexivity. Qed.
 End Tie.
